@@ -126,13 +126,17 @@ Definition parse_presentation_modifiers (s : string) : string * fmodifier :=
       else (s, ModNone)
   end.
 
-(* parseWidth *)
+(* parseWidth (as repaired: widths above maxWidth = 1<<16 are rejected, so the paddings below
+   are bounded and the LFuel guards of [pad_right] / [pad_left_zeros] are unreachable) *)
+Definition max_width : Z := 65536.
 Definition parse_width (s : string) : lres Z :=
   if seqb s "*" then LOk 0
   else if negb (is_all_digits s) then LErr "width contains illegal characters"
   else match go_atoi s with
        | None => LErr "width is not an integer"
-       | Some n => if n <? 1 then LErr "width cannot be less than 1" else LOk n
+       | Some n => if n <? 1 then LErr "width cannot be less than 1"
+                   else if max_width <? n then LErr "width cannot be greater than 65536"
+                   else LOk n
        end.
 
 (* parseWidthModifier *)
